@@ -356,6 +356,15 @@ func (ex *Exec) typeInv(t types.Type, v *Val, alloc *Term) *Term {
 			if pt := ex.structPtr(l.Type); pt != nil {
 				cs = append(cs, Or(Eq(tm, IntLit(0)), Eq(ex.dtype(tm), ex.typeTag(pt))))
 			}
+			// a non-nil value of a (non-empty) interface type has a dynamic type implementing it
+			if rt := ex.env.resolve(l.Type); rt != nil {
+				if it, ok := rt.Underlying().(*types.Interface); ok && it.NumMethods() > 0 {
+					if _, isTP := rt.(*types.TypeParam); !isTP {
+						f := ex.env.d.Func(symSafe("implements "+ex.env.typeKey(rt)), SBool, SInt)
+						cs = append(cs, Or(Eq(tm, IntLit(0)), ex.env.d.Apply(f.Name, ex.dtype(tm))))
+					}
+				}
+			}
 		}
 		if l.Type != nil {
 			if b, ok := ex.env.resolve(l.Type).Underlying().(*types.Basic); ok && b.Kind() == types.String {
